@@ -361,6 +361,24 @@ Section H.
   Qed.
 End H.
 
+(* ---- the whole connect ---- *)
+Lemma facade_none rs : facade_connect rs = None <-> Forall (fun r => raised r = None) rs.
+Proof.
+  induction rs as [|r t IH]; cbn; split; intro H.
+  - constructor.
+  - reflexivity.
+  - destruct (raised r) eqn:E; [discriminate|]. constructor; [exact E|now apply IH].
+  - inversion H as [|? ? H1 H2]; subst. rewrite H1. now apply IH.
+Qed.
+
+Lemma facade_first pre r post e :
+  Forall (fun x => raised x = None) pre -> raised r = Some e -> facade_connect (pre ++ r :: post) = Some e.
+Proof.
+  induction pre as [|x pre IH]; cbn; intros Hp Hr.
+  - now rewrite Hr.
+  - inversion Hp as [|? ? H1 H2]; subst. rewrite H1. now apply IH.
+Qed.
+
 (* a decidable predicate checked by the analyser on a list of skeletons holds on every execution *)
 Lemma lift (P : Skeleton.outcome -> st -> bool) (l : list cmd) :
   forallb (fun c => match an 4 c [s_init] with Some r => check P r | None => false end) l = true ->
